@@ -1120,7 +1120,12 @@ class PX:
             if isinstance(v, ast.Constant):
                 parts.append(str(v.value))
             else:
-                parts.append("{}")
+                # the interpolated expression is evaluated (it may raise); its text matters only when it is concrete
+                x = self.ev(v.value, fr) if isinstance(v, ast.FormattedValue) else None
+                if isinstance(x, (int, str, float)) and not isinstance(x, bool) and v.format_spec is None and v.conversion == -1:
+                    parts.append(str(x))
+                else:
+                    parts.append("{}")
         return "".join(parts)
 
     def e_FormattedValue(self, e, fr):
@@ -1568,6 +1573,9 @@ class PX:
         text = _text(e.func)
         if text.startswith(LOGGER_PREFIXES):
             self.ev_args(e, fr)
+            if text.endswith(".isEnabledFor"):
+                m = self.model_for(text) or self.model_for("*.isEnabledFor")
+                return bool(m(self, text, [], {}, fr)) if callable(m) and not isinstance(m, Outcomes) else False
             return None
         # super().method(...)
         if isinstance(e.func, ast.Attribute) and isinstance(e.func.value, ast.Call) and _text(e.func.value.func) == "super":
@@ -1598,6 +1606,20 @@ class PX:
             return self.do_call(fval.f, text, list(fval.args) + list(args), {**fval.kwargs, **kw}, fr, node, awaited)
         if isinstance(fval, _PyMethod):
             return self.py_method(fval, text, args, kw, fr, node)
+        if isinstance(fval, TypeRef) and fval.name in ("builtins.int.from_bytes", "builtins.bytes.fromhex", "builtins.dict.fromkeys", "builtins.bytes.join",
+                                                        "builtins.str.join", "builtins.int.to_bytes", "builtins.bytearray.fromhex"):
+            vals = [a.value if isinstance(a, Member) else (list(a) if isinstance(a, (Iter, _Gen)) else a) for a in args]
+            if not any(isinstance(a, (Sym, Obj)) or _has_sym(a) for a in vals) or fval.name == "builtins.dict.fromkeys":
+                import builtins as _b
+
+                obj = _b
+                for part in fval.name.split(".")[1:]:
+                    obj = getattr(obj, part)
+                try:
+                    return obj(*[bytes(a) if isinstance(a, bytearray) and fval.name.endswith("from_bytes") else a for a in vals],
+                               **{k: (v.value if isinstance(v, Member) else v) for k, v in kw.items()})
+                except (TypeError, ValueError, OverflowError) as ex:
+                    raise Exc(type(ex).__name__, (str(ex),), origin=text)
         if isinstance(fval, TypeRef) and fval.name.startswith("builtins."):
             return self.builtin(fval.short, text, args, kw, fr, node)
         if isinstance(fval, TypeRef) and fval.name in ("functools.partial",):
